@@ -420,6 +420,88 @@ def cq_cfg(e: Ex) -> str:
             f"stop_joins := {b(joins)}; locked := {b(e.locked)} |}}")
 
 
+def translate_counter(source=None):
+    """redun/job_array.py: every write of `self.num_pending` and whether it is inside `with self._lock:`.
+    Returns dict(locked=bool, lines=...). Anything but the two known disciplines fails closed."""
+    mod = load("redun/job_array.py", source)
+    cls = "JobArrayer"
+    writes = []   # (function name, statement, inside lock?)
+
+    def walk(stmts, fname, locked):
+        for st in stmts:
+            tg = []
+            if isinstance(st, ast.Assign):
+                tg = st.targets
+            elif isinstance(st, (ast.AugAssign, ast.AnnAssign)):
+                tg = [st.target]
+            for t in tg:
+                for n in ast.walk(t):
+                    if isinstance(n, ast.Attribute) and n.attr == "num_pending":
+                        writes.append((fname, st, locked))
+            if isinstance(st, ast.With):
+                lk = locked or [src(i.context_expr) for i in st.items] == ["self._lock"]
+                walk(st.body, fname, lk)
+            else:
+                for fld in ("body", "orelse", "finalbody"):
+                    sub = getattr(st, fld, None)
+                    if isinstance(sub, list) and sub and isinstance(sub[0], ast.stmt):
+                        walk(sub, fname, locked)
+                for h in getattr(st, "handlers", []) or []:
+                    walk(h.body, fname, locked)
+    c = None
+    for n in mod.body:
+        if isinstance(n, ast.ClassDef) and n.name == cls:
+            c = n
+    if c is None:
+        fail("class JobArrayer not found")
+    for f in c.body:
+        if isinstance(f, (ast.FunctionDef, ast.AsyncFunctionDef)):
+            walk(f.body, f.name, False)
+    # any other mention that could write it (setattr etc.) is out of the recognised shapes
+    for n in ast.walk(mod):
+        if isinstance(n, ast.Call) and src(n.func) in ("setattr", "object.__setattr__") and "num_pending" in src(n):
+            fail("job_array.py: num_pending written through setattr", n)
+    seen = {}
+    for fname, st, locked in writes:
+        s = src(st)
+        if fname == "__init__" and s == "self.num_pending = 0":
+            continue
+        if fname == "add_job" and s == "self.num_pending += 1":
+            if not locked:
+                fail("JobArrayer.add_job: num_pending incremented outside `with self._lock:` (no such variant is modelled)", st)
+            seen["inc"] = st
+            continue
+        if fname == "submit_pending_jobs" and s == "self.num_pending -= len(jobs)":
+            if "dec" in seen:
+                fail("JobArrayer.submit_pending_jobs: num_pending decremented twice", st)
+            seen["dec"] = (st, locked)
+            continue
+        fail(f"JobArrayer.{fname}: unrecognised write of num_pending: {s!r}", st)
+    if "inc" not in seen or "dec" not in seen:
+        fail("JobArrayer: expected one locked increment in add_job and one decrement in submit_pending_jobs")
+    add = find_func(mod, "add_job", cls)
+    if "self.pending[descr].append(job)" not in [src(x) for w in ast.walk(add) if isinstance(w, ast.With)
+                                                  and [src(i.context_expr) for i in w.items] == ["self._lock"]
+                                                  for x in w.body]:
+        fail("JobArrayer.add_job: the job is not appended to self.pending inside the same critical section", add)
+    sub = find_func(mod, "submit_pending_jobs", cls)
+    body = body_nodoc(sub)
+    first = body[0]
+    if not (isinstance(first, ast.With) and [src(i.context_expr) for i in first.items] == ["self._lock"]
+            and src(first.body[0]) == "jobs = self.pending.pop(descr)"):
+        fail("JobArrayer.submit_pending_jobs: jobs are not popped under the lock first", sub)
+    dec, dlocked = seen["dec"]
+    last = body[-1]
+    if not (last is dec or (isinstance(last, ast.With) and last.body and last.body[-1] is dec and len(last.body) == 1)):
+        fail("JobArrayer.submit_pending_jobs: the num_pending decrement is not the final statement", dec)
+    loop = find_func(mod, "_monitor_stale_jobs", cls)
+    whiles = [n for n in ast.walk(loop) if isinstance(n, ast.While)]
+    if len(whiles) != 1 or src(whiles[0].test) != "not self._exit_flag.wait(timeout=self.interval)":
+        fail("JobArrayer._monitor_stale_jobs: loop shape changed", loop)
+    return dict(locked=dlocked, file="redun/job_array.py",
+                lines=dict(idle=[single_line(whiles[0].test, "arrayer loop")], dec=[single_line(dec, "decrement")]))
+
+
 def translate(sources: dict | None = None, pins="file"):
     """Returns (coq_text, info). info[key] = {'variant', 'lines', 'file', 'locked', ...}."""
     if pins == "file":
@@ -440,6 +522,13 @@ def translate(sources: dict | None = None, pins="file"):
         out.append("")
         info[key] = dict(variant=variant, lines=e.lines, file=e.sp["file"], cls=e.cls, locked=e.locked,
                          stop_joins=e.stop_joins, guard_reads=e.guard_reads, ops=e.ops)
+    cnt = translate_counter((sources or {}).get("job_array"))
+    out.insert(3, "From RV Require Import Model.ArrCounter.")
+    out.append(f"Definition gen_counter : acfg := {{| counter_locked := {'true' if cnt['locked'] else 'false'} |}}.")
+    out.append(f"Lemma C10_tie_counter : gen_counter = {'arr_locked' if cnt['locked'] else 'arr_unlocked'}.")
+    out.append("Proof. reflexivity. Qed.")
+    out.append("")
+    info["_counter"] = cnt
     return "\n".join(out), info
 
 
